@@ -267,6 +267,12 @@ def inject(schema, document):
         top = D.defs[path[0]]
         site = ("operation" if isinstance(top, Operation) else "fragment") + ("-nested" if len(path) > 1 else "")
         yield "5.5.2.1", site, append(D, path, Spread("ZzUndefinedFragment"))
+        # 5.5.2.3 with a fragment that is legally spread elsewhere in the document (the rule is about every spread *site*)
+        if scope is not None:
+            for f in frags:
+                if schema.is_composite(f.on) and not (set(schema.possible_types(scope)) & set(schema.possible_types(f.on))):
+                    yield "5.5.2.3", site + "|existing-fragment-last", append(D, path, Spread(f.name))
+                    yield "5.5.2.3", site + "|existing-fragment-first", rewrite.set_container_sel(D, path, (Spread(f.name),) + cont.sel)
         yield "5.3.1", site + "|added-undefined", append(D, path, Field("zzUndefined"))
         td = schema.type(scope) if scope else None
         if td is not None and td.kind == "UNION":
